@@ -43,6 +43,7 @@ CORPUS = [
     ("C16-N05b", "", "#if 1 ]\n#endif\n"),
     ("C16-N06", "", "#define H(x) # y\nH(1)\n"),
     ("C16-N07", "", "int a;\n#ifndef\nint b;\n#endif\n"),
+    ("C16-N10", "", "@kernel void k(int *a) {\n  for (int i = 0; i < 1; ++i; @tile(99999999999, @outer, @inner)) {\n    a[i] = 1;\n  }\n}\n"),
     ("C16-N09", "", "#undef __FILE__\nconst char *f = __FILE__;\n"),
     ("C16-N08", "", "@kernel void k(const int N, float *a) {\n  for (int i = 0; i < N; ++i; @tile(16, @outer, @inner)) {\n    a[i] = OCCA_USING_GPU OCCA_USING_GPU\n  }\n}\n"),
 ]
